@@ -30,12 +30,12 @@ def _mats(item):
     return n, S, U, V, rr
 
 
-def _state(prog):
+def _state(prog, backend="gaussian"):
     import strawberryfields as sf
     from . import sfx
-    st = sf.Engine("gaussian").run(prog).state
-    p = sfx.project_state(st, "gaussian")
-    return [p["mu"].tolist(), p["V"].tolist()]
+    st = sf.Engine(backend).run(prog).state
+    p = sfx.project_state(st, backend)
+    return [np.real(p["mu"]).tolist(), np.real(p["V"]).tolist()]
 
 
 def _ops_case(item):
@@ -53,13 +53,13 @@ def _ops_case(item):
     except Exception:  # noqa
         pass
 
-    def run(label, mk):
+    def run(label, mk, backend="gaussian"):
         try:
             prog = sf.Program(n)
             with prog.context as q:
                 sfx.apply_hist(q, item["prefix"])
                 mk(q)
-            rec = {"state": _state(prog)}
+            rec = {"state": _state(prog, backend)}
             try:
                 comp = prog.compile(compiler="gaussian")
                 names = sorted({type(c.op).__name__ for c in comp.circuit})
@@ -86,6 +86,17 @@ def _ops_case(item):
     else:
         run("Gaussian", lambda q: ops.Gaussian(V, rr) | tuple(q[i] for i in range(n)))
         run("Gaussian:nodecomp", lambda q: ops.Gaussian(V, rr, decomp=False) | tuple(q[i] for i in range(n)))
+        run("Gaussian:bosonic", lambda q: ops.Gaussian(V, rr) | tuple(q[i] for i in range(n)), backend="bosonic")
+        # the same preparation with the targets listed in other orders (matrix and means re-indexed accordingly): a cyclic shift
+        # (a 3-cycle from 3 modes on) and the reversal, on the simulators that prepare it natively and by decomposition
+        for plabel, perm in (("cyclic", list(range(1, n)) + [0]), ("reversed", list(range(n))[::-1])):
+            if n < 2 or (plabel == "reversed" and n < 3):
+                continue
+            idx = perm + [p + n for p in perm]
+            Vp, rp = V[np.ix_(idx, idx)], rr[idx]
+            for backend in ("gaussian", "bosonic"):
+                run("Gaussian:%s:%s" % (plabel, backend), lambda q, Vp=Vp, rp=rp, perm=perm: ops.Gaussian(Vp, rp) | tuple(q[i] for i in perm), backend=backend)
+            run("Gaussian:%s:nodecomp" % plabel, lambda q, Vp=Vp, rp=rp, perm=perm: ops.Gaussian(Vp, rp, decomp=False) | tuple(q[i] for i in perm))
     return out
 
 
@@ -245,7 +256,7 @@ def c02(chk):
                 "displaced-squeezed, plain and daggered, all ordered targets) are covered by the lattice replay of C01 on simulators that "
                 "decompose them and on those that apply them natively, and here through every compile target. Non-trivial = non-identity input.")
     chk.assumptions = ["states compared at 1e-8 on the Gaussian simulator", "graph embeddings are checked in C17 (proportional adjacency, mean photon number)"]
-    plans = [("unitary", 2, 2), ("unitary", 3, 1), ("perm", 4, 3), ("symplectic", 2, 2), ("cov", 2, 2)] if tier == "quick" else \
+    plans = [("unitary", 2, 2), ("unitary", 3, 1), ("perm", 4, 3), ("symplectic", 2, 2), ("cov", 2, 2), ("cov", 3, 1)] if tier == "quick" else \
             [("unitary", 2, 3), ("unitary", 3, 2), ("unitary", 4, 1), ("perm", 4, 4), ("perm", 5, 4), ("symplectic", 2, 3), ("symplectic", 3, 2), ("cov", 2, 3), ("cov", 3, 2)]
     items = gen(chk, plans)
     res = common.pmap(_ops_case, items)
